@@ -169,8 +169,14 @@ def _brute_case(rng, dist):
     nS, nT = rng.randint(0, 3), rng.randint(0, 3)
     if dist == "B":
         S, T = _dgm(rng, nS, "dyadic"), _dgm(rng, nT, "dyadic")
-        if rng.random() < 0.3 and S and T:
+        if rng.random() < 0.45 and S and T:
             T[0] = list(S[0])
+            if rng.random() < 0.5 and len(S) >= 2 and len(T) >= 2:
+                # a chain through the shared point: a -> m (shared) -> c, one grid step each
+                m = S[0]
+                st = rng.choice([0.25, 0.5, 1.0])
+                S[1] = [m[0] - st, m[1] - st]
+                T[1] = [m[0] + st, m[1] + st]
         if rng.random() < 0.2 and S:
             S[-1] = [S[-1][0], S[-1][0]]
         if rng.random() < 0.25 and len(S) >= 2:
@@ -223,7 +229,14 @@ def generate(rng, tier):
         if law == "scale":
             c["c"] = rng.choice([0.5, 2.0, 3.0, 0.1, 10.0])
         cases.append(c)
-    nb = 60 if tier == "quick" else 600
+    # one size above 180 points per side in every run (costs that switch algorithm by size)
+    for law, dist in (("perm", "W"), ("translate", "W"), ("perm", "B")):
+        n = rng.choice([182, 185, 190])
+        c = _mono_case(rng, law, dist, n, n - rng.choice([0, 1, 3]))
+        if law == "translate":
+            c["c"] = rng.choice([1e3, 1e5, -2.5e4])
+        cases.append(c)
+    nb = 140 if tier == "quick" else 900
     for _ in range(nb):
         cases.append(_brute_case(rng, "B"))
     for _ in range(nb // 3):
